@@ -20,6 +20,11 @@ def main(tier, only=None):
         e1.run_set(chk, "c13/depth.c", [e1.H("h_include_depth", "include/nesting-depth-bounded", unwind=12, timeout=300, native=False),
                                          e1.H("h_include_depth", "include/nesting-depth-bounded/limit-path", unwind=12, timeout=300, native=False, defines=("WIT_LIMIT",))])
         chk.bounds += ["#include nesting: the real include_file() with the includer's depth symbolic in 0..300"]
+    if want("include"):
+        chk.bounds += ["#if defined: the real read_const_expr()/copy_line() on every directive line of <= 4 tokens over {defined, (, ), X, 1} (harness/c10/cond.c h_defined), "
+                       "cbmc pointer checks on: a located diagnostic or a well-formed list, never a walk past the end of the line"]
+        e1.run_set(chk, "c10/cond.c", [e1.H("h_defined", "include/if-defined-operand-safe", unwind=12, defines=("NITEMS=4", "HK_defined"),
+                                             replace_calls=("find_macro:stub_find_macro", "new_num_token:stub_new_num_token"), timeout=900)])
     if want("diag"):
         e1.run_set(chk, "c13/diag.c", [
             e1.H("h_error_at_location", "diag/error_at-line-exists", unwind=9, timeout=600,
